@@ -6,7 +6,7 @@
 //!
 //! Handles h0, h1 start on two maps X and Y of clearly different file length
 //! (values increase with the keys, so
-//! that get_key is defined). Alphabet (34 operations):
+//! that get_key is defined). Alphabet (38 operations):
 //!   Get(h, p)      get + contains_key of probe p in {"", a, ab, ba}
 //!   Open(h, b)     open the stream slot of h (replacing an open one) with
 //!                  bounds b in {none, ge(a).le(b), gt(a), lt(b)} or as
@@ -46,6 +46,8 @@ pub enum Op {
     CloneFrom(u8),
     Verify(u8),
     GetKey(u8, u8),
+    /// consume the rest of the open stream through into_byte_vec / into_byte_keys / into_values
+    Collect(u8, u8),
     /// harmless questions: len, is_empty, size, fst_type, as_bytes, root, a clone that is dropped
     Ask(u8),
 }
@@ -87,6 +89,8 @@ pub fn alphabet() -> Vec<Op> {
         a.push(Op::GetKey(h, 2));
         a.push(Op::GetKey(h, 3));
         a.push(Op::Ask(h));
+        a.push(Op::Collect(h, 0));
+        a.push(Op::Collect(h, 1));
     }
     a
 }
@@ -127,6 +131,15 @@ enum Slot<'f> {
 }
 
 impl<'f> Slot<'f> {
+    fn collect(self, how: u8) -> Vec<Kv> {
+        match (self, how) {
+            (Slot::Plain(s), 0) => s.into_byte_vec(),
+            (Slot::Search(s), 0) => s.into_byte_vec(),
+            (Slot::Plain(s), _) => s.into_byte_keys().into_iter().map(|k| (k, u64::MAX)).collect(),
+            (Slot::Search(s), _) => s.into_values().into_iter().map(|v| (vec![], v)).collect(),
+        }
+    }
+
     fn next_owned(&mut self) -> Option<Kv> {
         match self {
             Slot::Plain(s) => s.next().map(|(k, o)| (k.to_vec(), o.value())),
@@ -194,6 +207,21 @@ pub fn run_seq(seq: &[Op]) -> Result<u64, (Class, String)> {
                             }
                         }
                     }
+                    Op::Collect(hh, how) => {
+                        let hu = hh as usize;
+                        if let (Some(s), Some((items, pos))) = (slots[hu].take(), model[hu].take()) {
+                            let was_search = searching[hu];
+                            if was_search {
+                                CURRENT.with(|c| c.set(Class::Search));
+                            }
+                            let plain = !was_search;
+                            let got = s.collect(how);
+                            let want: Vec<Kv> = items[pos..].iter().map(|(k, v)| if how == 0 { (k.clone(), *v) } else if plain { (k.clone(), u64::MAX) } else { (vec![], *v) }).collect();
+                            if got != want {
+                                return Err((if was_search { Class::Search } else { Class::Stream }, format!("{}: collecting the rest of a stream after {} items gave {} items, expected {}", at(), pos, got.len(), want.len())));
+                            }
+                        }
+                    }
                     Op::Drop(hh) => {
                         slots[hh as usize] = None;
                         model[hh as usize] = None;
@@ -257,7 +285,7 @@ thread_local! {
 fn class_of(op: &Op) -> Class {
     match op {
         Op::Get(..) => Class::Lookup,
-        Op::Open(..) | Op::Next(_) | Op::Drop(_) => Class::Stream,
+        Op::Open(..) | Op::Next(_) | Op::Drop(_) | Op::Collect(..) => Class::Stream,
         Op::Verify(_) => Class::Verify,
         Op::GetKey(..) => Class::GetKey,
         Op::Ask(_) => Class::Meta,
@@ -289,7 +317,7 @@ fn enumerate(prefix: &mut Vec<Op>, open: [bool; 2], depth: usize, alpha: &[Op], 
                     continue;
                 }
             }
-            Op::Drop(h) => {
+            Op::Drop(h) | Op::Collect(h, _) => {
                 if !open[h as usize] {
                     continue;
                 }
@@ -322,6 +350,7 @@ pub fn ops_json(seq: &[Op]) -> Value {
                 Op::Verify(h) => json!(["verify", h, 0]),
                 Op::GetKey(h, v) => json!(["get_key", h, v]),
                 Op::Ask(h) => json!(["ask", h, 0]),
+                Op::Collect(h, x) => json!(["collect", h, x]),
             })
             .collect(),
     )
@@ -342,6 +371,7 @@ pub fn ops_from(v: &Value) -> Vec<Op> {
                 "clone_from" => Op::CloneFrom(h),
                 "verify" => Op::Verify(h),
                 "ask" => Op::Ask(h),
+                "collect" => Op::Collect(h, x),
                 _ => Op::GetKey(h, x),
             }
         })
@@ -359,13 +389,13 @@ pub fn replay(case: &Value) -> Option<Result<String, String>> {
     Some(guarded(&seq).map(|n| format!("{} reader operations agree with the model", n)).map_err(|e| e.1))
 }
 
-pub const RULE: &str = " reader operation sequences: every sequence of at most D calls (quick D=4, thorough D=5) over a 34-operation alphabet on two reader handles (get/contains_key of 4 probes, open one of 4 bounded streams or a bounded Subsequence search, next, drop, map_data to the other map's bytes, clone_from the other handle, verify, get_key of 2 values, the harmless questions len/is_empty/size/fst_type/as_bytes/root and a clone that is dropped), every answer compared with a reference model; a wrong answer is reported by the check of the operation's own property.";
+pub const RULE: &str = " reader operation sequences: every sequence of at most D calls (quick D=4, thorough D=5) over a 38-operation alphabet on two reader handles (get/contains_key of 4 probes, open one of 4 bounded streams or a bounded Subsequence search, next, drop, collect the rest through into_byte_vec / into_byte_keys / into_values, map_data to the other map's bytes, clone_from the other handle, verify, get_key of 2 values, the harmless questions len/is_empty/size/fst_type/as_bytes/root and a clone that is dropped), every answer compared with a reference model; a wrong answer is reported by the check of the operation's own property.";
 
 /// Adds the exploration to a plan; only failures of class `mine` are reported.
 pub fn add_units(p: &mut Plan, mine: Class, depth: usize) {
     let alpha = alphabet();
     for (fi, first) in alpha.iter().enumerate() {
-        if matches!(first, Op::Next(_) | Op::Drop(_)) {
+        if matches!(first, Op::Next(_) | Op::Drop(_) | Op::Collect(..)) {
             continue;
         }
         let first = *first;
